@@ -64,7 +64,7 @@ def combos():
     c["utf8_lt"] = (T_BYTE_ARRAY, None, CT["UTF8"], {"STRING": {}}, None, None,
                     [b"q", "é".encode(), b"abc", b"", b"abc", b"z"], lambda v: v.decode(), ("O", None))
     c["json"] = (T_BYTE_ARRAY, None, CT["JSON"], None, None, None,
-                 [b'{"a": 1}', b"[1, 2]", b'"s"', b"null_", b"3", b"{}"], None, ("O", None))
+                 [b'{"a": 1}', b"[1, 2]", b'"s"', b"null", b"3", b"{}"], None, ("O", None))
     c["flba4"] = (T_FLBA, 4, None, None, None, None, [b"abcd", b"\0\0\0\0", b"wxyz", b"\xff\xfe\xfd\xfc", b"abcd", b"1234"],
                   lambda v: v, ("S", 4))
     for name, ctn, bits, signed in (("int8", "INT_8", 8, True), ("int16", "INT_16", 16, True),
